@@ -82,6 +82,41 @@ Qed.
 Theorem C15_norm2_of_nothing : gen_spectral_norm_2 nil = 0.
 Proof. reflexivity. Qed.
 
+From QVT Require Import EckartYoung SpectralNorm.
+Close Scope R_scope.
+
+(* the largest singular value IS the spectral norm: for A = U diag(s) V^H (orthonormal columns, 0 <= s_k <= s_0) the value s_0 bounds
+   ||A X||_F / ||X||_F for every X and no smaller number does -- so what spectral_norm_2 returns (the largest entry of the value
+   vector, C15_norm2_is_largest_singular_value) is the least operator bound whenever the factorisation satisfies C05's contract *)
+Theorem C15_largest_singular_value_is_operator_norm m n r (U V : qmat RR) (s : nat -> R) : 0 < r ->
+  meq r r (qmm m (qherm U) U) qmid -> meq r r (qmm n (qherm V) V) qmid ->
+  (forall k, k < r -> (0 <= s k)%R) -> (forall k, k < r -> (s k <= s 0%nat)%R) ->
+  op_bound m n (@usv RR r U s V) (s 0%nat) /\ forall M, op_bound m n (@usv RR r U s V) M -> (s 0%nat <= M)%R.
+Proof.
+  intros Hr HU HV H0 Ht. split.
+  - exact (largest_value_is_op_bound m n r U V s Hr HU HV H0 Ht).
+  - exact (largest_value_is_least_bound m n r U V s Hr HU HV H0).
+Qed.
+(* hence the norm axioms for the largest singular value itself: sigma_max(A + B) <= sigma_max(A) + sigma_max(B), sigma_max(A B) <= sigma_max(A) sigma_max(B) *)
+Theorem C15_norm2_triangle m n ra rb rc (Ua Va Ub Vb Uc Vc : qmat RR) (sa sb sc : nat -> R) :
+  0 < ra -> 0 < rb -> 0 < rc ->
+  (forall j, j < ra -> (0 <= sa j <= sa 0%nat)%R) -> (forall j, j < rb -> (0 <= sb j <= sb 0%nat)%R) -> (forall j, j < rc -> (0 <= sc j <= sc 0%nat)%R) ->
+  meq ra ra (qmm m (qherm Ua) Ua) qmid -> meq ra ra (qmm n (qherm Va) Va) qmid ->
+  meq rb rb (qmm m (qherm Ub) Ub) qmid -> meq rb rb (qmm n (qherm Vb) Vb) qmid ->
+  meq rc rc (qmm m (qherm Uc) Uc) qmid -> meq rc rc (qmm n (qherm Vc) Vc) qmid ->
+  meq m n (@usv RR rc Uc sc Vc) (qmadd (@usv RR ra Ua sa Va) (@usv RR rb Ub sb Vb)) ->
+  (sc 0%nat <= sa 0%nat + sb 0%nat)%R.
+Proof. exact (spectral_triangle m n ra rb rc Ua Va Ub Vb Uc Vc sa sb sc). Qed.
+Theorem C15_norm2_submultiplicative m k n ra rb rc (Ua Va Ub Vb Uc Vc : qmat RR) (sa sb sc : nat -> R) :
+  0 < ra -> 0 < rb -> 0 < rc ->
+  (forall j, j < ra -> (0 <= sa j <= sa 0%nat)%R) -> (forall j, j < rb -> (0 <= sb j <= sb 0%nat)%R) -> (forall j, j < rc -> (0 <= sc j <= sc 0%nat)%R) ->
+  meq ra ra (qmm m (qherm Ua) Ua) qmid -> meq ra ra (qmm k (qherm Va) Va) qmid ->
+  meq rb rb (qmm k (qherm Ub) Ub) qmid -> meq rb rb (qmm n (qherm Vb) Vb) qmid ->
+  meq rc rc (qmm m (qherm Uc) Uc) qmid -> meq rc rc (qmm n (qherm Vc) Vc) qmid ->
+  meq m n (@usv RR rc Uc sc Vc) (qmm k (@usv RR ra Ua sa Va) (@usv RR rb Ub sb Vb)) ->
+  (sc 0%nat <= sa 0%nat * sb 0%nat)%R.
+Proof. exact (spectral_submultiplicative m k n ra rb rc Ua Va Ub Vb Uc Vc sa sb sc). Qed.
+Open Scope R_scope.
 Print Assumptions C15_frobenius_is_definition.
 Print Assumptions C15_entry_points_agree.
 Print Assumptions C15_frobenius_triangle.
@@ -91,3 +126,5 @@ Print Assumptions C15_2_le_F_le_sqrt_rank_2.
 Print Assumptions C15_norm2_is_largest_singular_value.
 Print Assumptions C15_norm2_squared_le_norm1_norminf.
 Print Assumptions C15_norm2_bounds_submultiplicative.
+Print Assumptions C15_largest_singular_value_is_operator_norm.
+Print Assumptions C15_norm2_triangle.
